@@ -832,10 +832,14 @@ def prims_uniform(
 def prims_var(
     inp: TensorType,
     dims: Optional[Sequence[int]],
-    correction: int,
+    correction: Optional[float] = 1.0,
     output_dtype: Optional[int] = None,
 ) -> TensorType:
-    """var(Tensor inp, int[]? dims, *, int correction, ScalarType? output_dtype=None) -> Tensor"""
+    """var(Tensor inp, int[]? dims, float? correction=1, *, ScalarType? output_dtype=None) -> Tensor"""
+
+    if correction is None:
+        # Bessel's correction is the default
+        correction = 1.0
 
     if not dims:
         # dims can be empty in practice. We just use a None so it is not added in the ONNX graph
